@@ -80,6 +80,9 @@ def run(ctx):
     eff.check_fwd(ctx, [("edgegraph.builder.explicit.link_directed", "link_from_to", {}), ("edgegraph.builder.explicit.link_undirected", "link_from_to", {})])
     from rules import structural
     structural.validate_first(ctx, "edgegraph.structure.twoendedlink.TwoEndedLink.__init__", "RAISE-FIRST")
+    from rules import hist
+    hist.run(ctx, res, 'C03')       # composition: histories through the public API against the reference model (rules/hist.py)
+    common.vacuity(res, "HISTORY", 10000)
     common.vacuity(res, "MODEL-STEP/core", 5000)
     common.vacuity(res, "MODEL-STEP/explicit", 300)
     res.analysed = common.analysed(ctx, [q for q in struct.QUAL.values() if "[" not in q])
